@@ -94,6 +94,11 @@ pub fn gen(prop: &str, scen: &str, _k: u64, seed: u64, tier: &str) -> Case {
                 // a state-reset chunk (control 0xA0 when it holds at most 64 KiB)
                 case.input = simcore::case::sandwich_input(&mut r_in);
             }
+            if case.fmt == "xz-mt" && r_in.pct(3) {
+                // 128 and more blocks: two-byte record count in the index
+                case.set("mt_block", 4096);
+                case.input = simcore::case::InputSpec { class: "text".into(), len: 4096 * 127 + 1 + r_in.urange(0, 60_000), seed: r_in.next_u64(), p1: r_in.below(11356), p2: 0 };
+            }
             case.rbufs = random_rbufs(&mut r_ops);
             case.src_policy = if r_f.pct(40) { benign_policy(&mut r_f) } else { IoPolicy::default() };
         }
